@@ -266,7 +266,7 @@ def attach(tr):
         def create_order_replacement(self, order, new_price, size, date_time_created):
             rep = orig(self, order, new_price, size, date_time_created)
             # the replacement belongs to the client of the order it replaces
-            rep._vf_expected_client = order.client
+            rep._vf_expected_client = getattr(order, "_vf_expected_client", None) or order.client
             rep._vf_replaces = TR.okey(order)
             TR.okey(rep)
             if order.simulated and getattr(order, "_vf_last_cancel_moved", None) is not None and getattr(order, "_simulated", True):
@@ -807,7 +807,10 @@ def sample_order(tr, order, phase, market):
         s["line_result"] = order.line_range_result
         s["o_apm"] = order.average_price_matched
         s["ladder"] = getattr(ot, "price_ladder_definition", None)
-        s["client"] = order.client.username if order.client else None
+        # the client the strategy chose for the order (a replacement belongs to the client of the order it replaces)
+        ic_ = getattr(order, "_vf_expected_client", None) or order.client
+        s["client"] = ic_.username if ic_ else None
+        s["client_recorded"] = order.client.username if order.client else None
     tr.samples[tr.okey(order)].append(s)
     tr.counters["samples"] += 1
     return s
